@@ -10,7 +10,12 @@
    Invariant NoMixedLineage: no value is ever computed from coordinates of two different systems.              *)
 EXTENDS Integers, Sequences, FiniteSets, TLC
 
-Tags == {<<"none", "">>, <<"G", "epsg">>, <<"G", "wkt">>, <<"P", "epsg">>, <<"P", "wkt">>}
+\* L1, L2: two different custom projections that have no EPSG code (the code's lazy EPSG lookup answers "none" for both)
+Tags == {<<"none", "">>, <<"G", "epsg">>, <<"G", "wkt">>, <<"P", "epsg">>, <<"P", "wkt">>, <<"L1", "proj">>, <<"L2", "proj">>}
+\* lazy state of a CRS object: its EPSG code is looked up on first use and remembered ("unset" -> "code" | "none").
+\* Equality of classes must not depend on it: a case is run with fresh objects (warm = FALSE) and after the lookup happened
+\* on every operand (warm = TRUE, as xr_coords / assign_crs do implicitly); the expected verdict is the same.
+LazyEpsg(t, warm) == IF ~warm THEN "unset" ELSE IF t[2] \in {"epsg", "wkt"} THEN "code" ELSE "none"
 Class(t) == t[1]
 Mismatch(ts) == \E i, j \in DOMAIN ts : Class(ts[i]) # Class(ts[j])
 
